@@ -92,9 +92,11 @@ def page_jobs(prop, tier):
                env=dict(VERIF_ENC=enc, VERIF_OPTIONAL=opt, VERIF_SELFMADE=sm))
         j["name"] += "[%s,opt=%d,selfmade=%d]" % (enc, opt, sm)
         out.append(j)
+    out.append(ch(prop, "vf/pyshim/h_page.py", "h_page_v1_nested", t, ["core.read_data_page", "core.read_rep",
+                                                                      "core.read_def"]))
     out.append(ch(prop, "vf/pyshim/h_skip.py", "h_skip_nulls", t,
                   ["core.read_col", "core.read_data_page", "core.read_def", "core.skip_definition_bytes"]))
-    for h in ("h_levels", "h_list_shape", "h_map_shape"):
+    for h in ("h_levels", "h_levels_two_columns", "h_list_shape", "h_map_shape"):
         out.append(ch(prop, "vf/pyshim/h_schema.py", h, t, ["schema.SchemaHelper", "schema._is_list_like",
                                                            "schema._is_map_like"]))
     return out
